@@ -95,7 +95,7 @@ class Sandbox:
         self.root = os.path.join(self.base, "root")
         self.ctl = os.path.join(self.base, "ctl")
         os.makedirs(self.ctl)
-        for d in ("bin", "home", "S/work/proj", "outs", "elsewhere", "ro", "decoy_pkg", "decoy_file"):
+        for d in ("bin", "home", "tmp", "S/work/proj", "outs", "elsewhere", "ro", "decoy_pkg", "decoy_file"):
             os.makedirs(os.path.join(self.root, d))
         os.symlink("proj", os.path.join(self.root, "S/work/proj_link"))
         os.symlink("outs", os.path.join(self.root, "outs_link"))
@@ -133,7 +133,7 @@ class Sandbox:
     # --- helpers used by histories
     def wipe_outputs(self) -> None:
         """Back to a pristine sandbox (out dir absent, no cwd artefacts) without touching the package."""
-        for d in ("outs", "elsewhere", "ro", "bin", "home"):
+        for d in ("outs", "elsewhere", "ro", "bin", "home", "tmp"):
             p = os.path.join(self.root, d)
             shutil.rmtree(p, ignore_errors=True)
             os.makedirs(p)
@@ -292,6 +292,7 @@ def build_job(sb: Sandbox, options: dict, sigma: dict, faults: list, extra: dict
     env = {
         "PATH": "/usr/bin:/bin",
         "HOME": os.path.join(sb.root, "home"),
+        "TMPDIR": os.path.join(sb.root, "tmp"),  # temporary files stay inside the sandbox, where left-overs are seen
         "PYTHONHASHSEED": str(s["hashseed"]),
         "PYTHONDONTWRITEBYTECODE": "1",
         "PYTHONWARNINGS": "ignore",
